@@ -298,3 +298,26 @@ ADDED = {
         'the after-fork hook; generated proxy types are cached under name and exposed methods; server tables are per '
         'server.',
 }
+
+# round 4 (DESIGN.md section 16)
+for _p, _t in {
+ 'C01': ' The expired-marker scan precedes every way out of the reaper; the outcome is never rewritten once observable.',
+ 'C02': ' The failure record of a task is made from the whole live exception.',
+ 'C03': ' _cancel leaves the cache entry for the handshake.',
+ 'C04': ' The lost-worker marker is written once per job (D11, repaired); owner records of a map job are indexed per '
+        'item; naming an exit status cannot raise.',
+ 'C06': ' Whatever blocks a signal in worker code unblocks it on every way out.',
+ 'C07': ' join() does not wait for the time-limit scanner.',
+ 'C08': ' The worker looks at the exit-requested flag before taking another job (D10, repaired); Process.terminate() '
+        'sends TERM_SIGNAL; the lists handed to the finalizer are never re-bound.',
+ 'C09': ' Workers are started from one place (callers of the refill / fork).',
+ 'C10': ' Whoever calls the reaper hands its result to the slot release (known finding D12: did_start_ok).',
+ 'C12': ' The positions table of a code stand-in is copied whole.',
+ 'C14': ' Nothing changes the free lists between the best-fit search and the use of its result.',
+ 'C16': ' join() tests and waits inside one critical section; the framing loops of the connection (write-all, '
+        'read-exactly) are part of this check.',
+ 'C17': ' Timed-out waiters are reconciled before a wake-up.',
+ 'C19': ' Nothing in the final clean-up of _bootstrap can raise past the decided exit code.',
+ 'C20': ' _incref tells the server and arms its finalizer on every path.',
+}.items():
+    ADDED[_p] = ADDED.get(_p, '') + _t
